@@ -41,6 +41,8 @@ pub struct Profile {
     pub big: bool,
     /// small universes / limits only (fault enumeration wants small states)
     pub small: bool,
+    /// the limit is of the order of usize::MAX: draw sizes that scale with it
+    pub giant: bool,
 }
 
 impl Profile {
@@ -50,7 +52,7 @@ impl Profile {
             insert: 24, try_insert: 6, promote: 10, peek: 6, remove: 8, mutate: 8,
             set_max: 4, retain: 3, clear: 1, capacity: 6, walk: 4, debug: 1,
             clone: 2, scalars: 1, insert_many: 2, churn: 1, side: 2, inject: 1,
-            forget: 0, boundary: 5, colliding: 4, max_ops: 60, big: false, small: false,
+            forget: 0, boundary: 5, colliding: 4, max_ops: 60, big: false, small: false, giant: false,
         }
     }
 
@@ -110,7 +112,39 @@ pub fn size_sel(boundary: u32) -> impl Strategy<Value = SizeSel> {
         boundary / 2 + 1 => small_d().prop_map(SizeSel::MaxPlus),
         boundary => (0u8..6, small_d()).prop_map(|(n, d)| SizeSel::NeedEvict(n, d)),
         1 => (20u8..70, small_d()).prop_map(|(n, d)| SizeSel::NeedEvict(n, d)),
+        1 => (1u8..4, small_d()).prop_map(|(k, d)| SizeSel::Frac(k, d)),
     ]
+}
+
+fn giant_lim() -> impl Strategy<Value = LimSel> {
+    prop_oneof![
+        2 => small_d().prop_map(|d| LimSel::Pow(63, d)),
+        1 => small_d().prop_map(|d| LimSel::Pow(62, d)),
+        2 => small_d().prop_map(LimSel::ThreeQuarters),
+        2 => Just(LimSel::Max),
+        1 => (0u8..4).prop_map(LimSel::MaxMinus),
+    ]
+}
+
+pub fn lim_sel_for(giant: bool) -> BoxedStrategy<LimSel> {
+    if giant {
+        prop_oneof![3 => giant_lim(), 2 => lim_sel()].boxed()
+    }
+    else {
+        lim_sel().boxed()
+    }
+}
+
+pub fn size_sel_for(boundary: u32, giant: bool) -> BoxedStrategy<SizeSel> {
+    if giant {
+        prop_oneof![
+            6 => (1u8..4, small_d()).prop_map(|(k, d)| SizeSel::Frac(k, d)),
+            4 => size_sel(boundary + 4),
+        ].boxed()
+    }
+    else {
+        size_sel(boundary).boxed()
+    }
 }
 
 pub fn lim_sel() -> impl Strategy<Value = LimSel> {
@@ -143,6 +177,7 @@ fn initial_limit(small: bool) -> BoxedStrategy<LimSel> {
             3 => (100u16..3000, small_d()).prop_map(|(n, d)| LimSel::Ents(n, d)),
             3 => Just(LimSel::Max),
             1 => (0u8..4).prop_map(LimSel::MaxMinus),
+            2 => giant_lim(),
         ].boxed()
     }
 }
@@ -180,6 +215,7 @@ pub fn hasher(colliding: u32) -> impl Strategy<Value = HKind> {
         s => Just(HKind::Fx),
         s / 2 + 1 => Just(HKind::Identity),
         s / 2 + 1 => Just(HKind::Reseed),
+        s / 3 + 1 => Just(HKind::OneOff),
         c => Just(HKind::LowBits(1)),
         c => Just(HKind::LowBits(2)),
         c => Just(HKind::LowBits(4)),
@@ -203,8 +239,15 @@ pub fn walk(forget: u32) -> impl Strategy<Value = Op> {
     else {
         prop_oneof![10 => Just(Fate::Drop), forget => Just(Fate::Forget)].boxed()
     };
-    (iter_kind(), vec(any::<bool>(), 0..10),
-        prop_oneof![3 => Just(Rest::Stop), 2 => Just(Rest::Front), 2 => Just(Rest::Back), 2 => Just(Rest::Alternate)],
+    let call = prop_oneof![
+        8 => Just(Call::Next), 8 => Just(Call::NextBack),
+        2 => (0u8..6).prop_map(Call::Nth), 2 => (0u8..6).prop_map(Call::NthBack), 1 => Just(Call::Hint),
+    ];
+    (iter_kind(), vec(call, 0..10),
+        prop_oneof![6 => Just(Rest::Stop), 4 => Just(Rest::Front), 4 => Just(Rest::Back), 4 => Just(Rest::Alternate),
+            1 => Just(Rest::Count), 1 => Just(Rest::Last), 1 => Just(Rest::Fold), 1 => Just(Rest::RFold),
+            1 => (0u8..5).prop_map(Rest::Skip), 1 => (0u8..4).prop_map(Rest::StepBy),
+            1 => (0u8..4).prop_map(Rest::RevStepBy), 1 => (0u8..5).prop_map(Rest::TakeThenFront)],
         fate)
         .prop_map(|(kind, calls, rest, fate)| Op::IterWalk { kind, calls, rest, fate })
 }
@@ -217,9 +260,9 @@ pub fn op(p: &Profile, universe: u16) -> BoxedStrategy<Op> {
     let churn_max: u16 = if big { 1500 } else { 400 };
     let kheap = prop_oneof![6 => Just(0u8), 2 => 1u8..4];
     let mut alts: Vec<(u32, BoxedStrategy<Op>)> = vec![
-        (p.insert, (key_sel(universe), kheap.clone(), size_sel(b))
+        (p.insert, (key_sel(universe), kheap.clone(), size_sel_for(b, p.giant))
             .prop_map(|(key, kheap, size)| Op::Insert { key, kheap, size }).boxed()),
-        (p.try_insert, (key_sel(universe), kheap, size_sel(b))
+        (p.try_insert, (key_sel(universe), kheap, size_sel_for(b, p.giant))
             .prop_map(|(key, kheap, size)| Op::TryInsert { key, kheap, size }).boxed()),
         (p.promote, (key_sel(universe), form(), 0u8..4).prop_map(|(key, form, which)| match which {
             0 => Op::Get { key, form },
@@ -240,9 +283,9 @@ pub fn op(p: &Profile, universe: u16) -> BoxedStrategy<Op> {
             2 => Op::RemoveLru,
             _ => Op::RemoveMru,
         }).boxed()),
-        (p.mutate, (key_sel(universe), form(), size_sel(b + 2))
+        (p.mutate, (key_sel(universe), form(), size_sel_for(b + 2, p.giant))
             .prop_map(|(key, form, size)| Op::Mutate { key, form, size }).boxed()),
-        (p.set_max, lim_sel().prop_map(Op::SetMaxSize).boxed()),
+        (p.set_max, lim_sel_for(p.giant).prop_map(Op::SetMaxSize).boxed()),
         (p.retain, (prop_oneof![
                 1 => Just(0u64), 1 => Just(!0u64), 1 => Just(0x5555_5555_5555_5555u64),
                 1 => Just(!1u64), 1 => Just(1u64), 6 => any::<u64>()],
@@ -293,12 +336,18 @@ pub fn config(p: &Profile) -> impl Strategy<Value = Config> {
 
 pub fn case(p: &Profile) -> BoxedStrategy<Case> {
     let p = p.clone();
-    config(&p).prop_flat_map(move |config| {
+    (config(&p), any::<bool>()).prop_flat_map(move |(config, coin)| {
         let u = config.universe;
         let lens = prop_oneof![6 => 0..(p.max_ops / 3 + 2), 3 => 0..(p.max_ops + 1)];
+        let mut pp = p.clone();
+        // limits of the order of usize::MAX: entries of that magnitude
+        pp.giant = match config.limit.class() { "giant" => true, "max" | "maxminus" => coin, _ => false };
+        if pp.giant {
+            pp.insert_many = 0;
+            pp.churn = 0;
+        }
         let ops = lens.prop_flat_map({
-            let p = p.clone();
-            move |n| vec(op(&p, u), n..=n)
+            move |n| vec(op(&pp, u), n..=n)
         });
         (Just(config), ops)
     }).prop_map(|(config, ops)| Case { config, ops }).boxed()
